@@ -76,7 +76,10 @@ class Never:
 
 
 class Boom(Exception):
-    pass
+    """the failure of a component: an exception like any other -- although this one, like an aggregate error with
+    nothing in it, is falsy"""
+    def __len__(self):
+        return 0
 
 
 class AsyncCallable:
